@@ -1,6 +1,7 @@
 package main
 
 import (
+	"context"
 	"encoding/json"
 	"fmt"
 	"go/types"
@@ -16,6 +17,7 @@ import (
 )
 
 // Oracle answers "what is the value of this term in the counterexample", re-solving with earlier answers pinned.
+// Lookups are lazy: unknown terms are queued and resolved together by flush (one solver call per round).
 type Oracle struct {
 	ctx     *Ctx
 	base    string
@@ -23,46 +25,119 @@ type Oracle struct {
 	order   []string
 	timeout time.Duration
 	failed  bool
+	pending []string
+	pendSet map[string]bool
+	rounds  int
+	soft    []string // accepted size preferences
+	softNew []string // size preferences proposed in this round
+	softSet map[string]bool
+}
+
+// prefer proposes "term <= bound" so that counterexamples stay small; dropped when inconsistent with the model.
+func (o *Oracle) prefer(term string, bound int) {
+	c := le(term, intLit(int64(bound)))
+	if o.softSet == nil {
+		o.softSet = map[string]bool{}
+	}
+	if !o.softSet[c] {
+		o.softSet[c] = true
+		o.softNew = append(o.softNew, c)
+	}
 }
 
 func (o *Oracle) get(terms ...string) []string {
-	var need []string
-	for _, t := range terms {
-		if _, ok := o.known[t]; !ok {
-			need = append(need, t)
-		}
-	}
-	if len(need) > 0 && !o.failed {
-		// declare heap arrays that the program never touched before this obligation
-		for _, t := range need {
-			for _, sym := range symsOf(t) {
-				if idx, ok := o.ctx.names[sym]; ok && o.ctx.items[idx].kind == itDecl && !strings.Contains(o.base, o.ctx.items[idx].text) {
-					o.base = o.ctx.items[idx].text + "\n" + o.base
-				}
-			}
-		}
-		var b strings.Builder
-		b.WriteString(o.base)
-		for _, t := range o.order {
-			fmt.Fprintf(&b, "(assert (= %s %s))\n", t, o.known[t])
-		}
-		r := solveTerms(b.String(), need, o.timeout)
-		if r == nil {
-			o.failed = true
-		} else {
-			for i, t := range need {
-				if i < len(r) && r[i] != "" {
-					o.known[t] = r[i]
-					o.order = append(o.order, t)
-				}
-			}
-		}
-	}
 	out := make([]string, len(terms))
 	for i, t := range terms {
-		out[i] = o.known[t]
+		if v, ok := o.known[t]; ok {
+			out[i] = v
+			continue
+		}
+		if o.pendSet == nil {
+			o.pendSet = map[string]bool{}
+		}
+		if !o.pendSet[t] {
+			o.pendSet[t] = true
+			o.pending = append(o.pending, t)
+		}
 	}
 	return out
+}
+
+// flush resolves all queued terms with one solver call; false when nothing was pending.
+func (o *Oracle) flush() bool {
+	if len(o.pending) == 0 {
+		return false
+	}
+	need := o.pending
+	o.pending, o.pendSet = nil, nil
+	o.rounds++
+	t0 := time.Now()
+	o.fetch(need)
+	if os.Getenv("GOVC_DEBUG") != "" {
+		fmt.Fprintf(os.Stderr, "  oracle round %d: %d terms %.1fs\n", o.rounds, len(need), time.Since(t0).Seconds())
+	}
+	return true
+}
+
+func (o *Oracle) fetch(need []string) {
+	if o.failed {
+		return
+	}
+	// declare heap arrays that the program never touched before this obligation
+	for _, t := range need {
+		for _, sym := range symsOf(t) {
+			if idx, ok := o.ctx.names[sym]; ok && o.ctx.items[idx].kind == itDecl && !strings.Contains(o.base, o.ctx.items[idx].text) {
+				o.base = o.ctx.items[idx].text + "\n" + o.base
+			}
+		}
+	}
+	var b strings.Builder
+	b.WriteString(o.base)
+	for _, t := range o.order {
+		fmt.Fprintf(&b, "(assert (= %s %s))\n", t, o.known[t])
+	}
+	for _, c := range o.soft {
+		fmt.Fprintf(&b, "(assert %s)\n", c)
+	}
+	hard := b.String()
+	var r []string
+	if len(o.softNew) > 0 {
+		// try the size preferences as proposed, then relaxed by x8 and x64, before giving them up
+		for _, scale := range []int64{1, 8, 64} {
+			var sb strings.Builder
+			sb.WriteString(hard)
+			var scaled []string
+			for _, c := range o.softNew {
+				// c is "(<= term N)"
+				i := strings.LastIndex(c, " ")
+				n, _ := strconv.ParseInt(strings.TrimSuffix(c[i+1:], ")"), 10, 64)
+				sc := c[:i+1] + strconv.FormatInt(n*scale, 10) + ")"
+				scaled = append(scaled, sc)
+				fmt.Fprintf(&sb, "(assert %s)\n", sc)
+			}
+			r = solveTerms(sb.String(), need, o.timeout)
+			if r != nil {
+				o.soft = append(o.soft, scaled...)
+				break
+			}
+		}
+		o.softNew = nil
+	}
+	if r == nil {
+		r = solveTerms(hard, need, o.timeout)
+	}
+	if r == nil {
+		o.failed = true
+		return
+	}
+	for i, t := range need {
+		if i < len(r) && r[i] != "" {
+			o.known[t] = r[i]
+			o.order = append(o.order, t)
+		} else {
+			o.failed = true
+		}
+	}
 }
 
 // solveTerms runs z3 and returns the values of the given terms (nil when not sat).
@@ -80,8 +155,10 @@ func solveTerms(script string, terms []string, timeout time.Duration) []string {
 		defer os.Remove(file)
 	}
 	for _, s := range []solverSpec{solvers[1], solvers[0]} {
-		cmd := exec.Command(s.bin, s.args(int(timeout/time.Millisecond), file)...)
+		cctx, cancel := context.WithTimeout(context.Background(), timeout+2*time.Second)
+		cmd := exec.CommandContext(cctx, s.bin, s.args(int(timeout/time.Millisecond), file)...)
 		out, _ := cmd.CombinedOutput()
+		cancel()
 		if os.Getenv("GOVC_DEBUG") != "" {
 			fmt.Fprintf(os.Stderr, "oracle %s %s: %s\n", s.name, file, trimOut(string(out)))
 		}
@@ -288,6 +365,7 @@ func (m *materializer) value(t types.Type, slots []string, depth int) string {
 			v := m.orc.get(slots[0])[0]
 			return fmt.Sprintf("%s(%s)", m.typeStr(t), strings.TrimSpace(v))
 		case u.Info()&types.IsString != 0:
+			m.orc.prefer(slots[1], 48)
 			n, ok := m.intOf(slots[1])
 			if !ok || n.Sign() <= 0 {
 				return fmt.Sprintf("%s(\"\")", m.typeStr(t))
@@ -339,10 +417,15 @@ func (m *materializer) value(t types.Type, slots []string, depth int) string {
 		m.fill(v, u.Elem(), a.String(), "elem", depth+1)
 		return v
 	case *types.Slice:
+		m.orc.prefer(slots[2], 96)
 		p, ok1 := m.intOf(slots[0])
 		n, ok2 := m.intOf(slots[1])
 		c, ok3 := m.intOf(slots[2])
 		if !ok1 || !ok2 || !ok3 || (p.Sign() == 0 && c.Sign() == 0) {
+			return fmt.Sprintf("%s(nil)", m.typeStr(t))
+		}
+		if n.Sign() < 0 || c.Sign() < 0 || n.Cmp(c) > 0 || p.Sign() <= 0 {
+			// an ill-formed header can only sit in memory the program never reads: any value will do
 			return fmt.Sprintf("%s(nil)", m.typeStr(t))
 		}
 		if c.Int64() > maxMaterialize {
@@ -470,7 +553,7 @@ type replayOutcome struct {
 	Note       string
 }
 
-func reportViolation(p *Program, res *UnitResult, o *Obligation, pd *PropDef, dir string, timeout time.Duration) string {
+func reportViolation(p *Program, res *UnitResult, o *Obligation, pd *PropDef, dir string, timeout time.Duration, doReplay bool) string {
 	os.MkdirAll(dir, 0o755)
 	base := filepath.Join(dir, sanitize(o.Name))
 	info := fmt.Sprintf("property %s\nobligation %s\nkind %s\nposition %s\nverdict %s (%s, %.2fs)\n", pd.ID, o.Name, o.Kind, o.Pos, o.Res.Verdict, o.Res.Solver, o.Res.Seconds)
@@ -479,7 +562,12 @@ func reportViolation(p *Program, res *UnitResult, o *Obligation, pd *PropDef, di
 		os.WriteFile(path, []byte(info+"\nThe obligation could not be discharged and the solvers returned no model.\n\n--- solver output ---\n"+o.Res.Output+"\n"), 0o644)
 		return fmt.Sprintf("VIOLATION property=%s replay=%s obligation=%s verdict=%s no-failing-input-found", pd.ID, path, o.Name, o.Res.Verdict)
 	}
-	out := replayCounterexample(p, res, o, base, timeout)
+	var out replayOutcome
+	if doReplay {
+		out = replayCounterexample(p, res, o, base, timeout)
+	} else {
+		out = replayOutcome{Note: "not replayed: the per-run replay limit was reached (earlier violations of this run carry replays)"}
+	}
 	txt := info + "\n" + out.Note + "\n\n--- replay output ---\n" + out.Output + "\n\n--- solver model (inputs) ---\n"
 	for _, in := range res.unit.inputs {
 		txt += fmt.Sprintf("%s = %s\n", in.Name, o.Res.Model[in.Sym])
@@ -507,19 +595,47 @@ func replayCounterexample(p *Program, res *UnitResult, o *Obligation, base strin
 	if strings.Contains(o.Name, "inv-") {
 		return replayOutcome{Note: "model starts at a loop head"}
 	}
-	script := u.script(o)
-	if o.Res.Solver == "qf-relaxation" {
-		script = u.scriptQF(o)
+	// the quantifier-free relaxation keeps the oracle fast; the inputs found by the deciding query are pinned,
+	// and the replay on the real code is what validates the candidate
+	script := u.scriptQF(o)
+	// look for a small counterexample first: input slices and strings of at most 64, then 2048 elements
+	var small string
+	found := false
+	for _, bound := range []int{64, 2048} {
+		var cs []string
+		for i, prm := range root.Params {
+			v := u.rootFrame.params[i]
+			for k, l := range leavesOf(prm.Type(), "elem") {
+				if l.Kind == "slice.cap" || l.Kind == "str.len" {
+					cs = append(cs, le(v.S[k], intLit(int64(bound))))
+				}
+			}
+		}
+		small = fmt.Sprintf("(assert %s)\n", and(cs...))
+		if r := solveTerms(script+small, []string{"alloc0"}, timeout); r != nil {
+			found = true
+			break
+		}
 	}
-	orc := &Oracle{ctx: u.ctx, base: script, known: map[string]string{}, timeout: timeout}
+	if !found {
+		return replayOutcome{Note: "no counterexample with inputs of at most 2048 elements was found by the quantifier-free search; not replayed"}
+	}
+	orc := &Oracle{ctx: u.ctx, base: script + small, known: map[string]string{}, timeout: timeout}
 	m := &materializer{u: u, orc: orc, pkg: root.Pkg.Pkg, ptrVars: map[string]string{}, imports: map[string]bool{"testing": true, "fmt": true}}
 	var argExprs []string
 	defer func() {
 		recover()
 	}()
-	for i, prm := range root.Params {
-		v := u.rootFrame.params[i]
-		argExprs = append(argExprs, m.value(prm.Type(), v.S, 0))
+	for round := 0; round < 16; round++ {
+		m.decls, m.nvar, m.ptrVars, m.approx, m.tooBig = nil, 0, map[string]string{}, nil, false
+		argExprs = nil
+		for i, prm := range root.Params {
+			v := u.rootFrame.params[i]
+			argExprs = append(argExprs, m.value(prm.Type(), v.S, 0))
+		}
+		if !orc.flush() || orc.failed {
+			break
+		}
 	}
 	if m.tooBig {
 		return replayOutcome{Note: "model needs an allocation larger than the replay limit; skipped"}
